@@ -816,6 +816,28 @@ func (env *SpecEnv) call(x *SExpr) (sval, error) {
 		}
 		e.U.declareFun("rx.nsub", []Sort{SInt}, SInt)
 		return sval{app(SInt, "rx.nsub", v.t), types.Typ[types.Int]}, nil
+	case "srcpos", "srclen", "lastread", "srcrune":
+		// ghost source of the io.RuneScanner the parser reads (extern.go): the
+		// runes it will deliver, how many have been delivered, and whether the
+		// last operation was a successful ReadRune (so that UnreadRune is defined)
+		e.U.declareConst("g.N", SInt)
+		e.U.declareFun("g.src", []Sort{SInt}, SInt)
+		switch fnx.Name {
+		case "srcpos":
+			e.famSort["g.k"] = SInt
+			return sval{e.family(env.cur, "g.k", SInt), types.Typ[types.Int]}, nil
+		case "srclen":
+			return sval{Term{"g.N", SInt}, types.Typ[types.Int]}, nil
+		case "lastread":
+			e.famSort["g.lastread"] = SBool
+			return sval{e.family(env.cur, "g.lastread", SBool), types.Typ[types.Bool]}, nil
+		default:
+			i, err := env.eval(args[0])
+			if err != nil {
+				return sval{}, err
+			}
+			return sval{app(SInt, "g.src", env.f.asInt(i.t)), types.Typ[types.Rune]}, nil
+		}
 	case "rsrc", "rpos":
 		// ghost state of a strings.Reader: the string it reads and how far it is
 		r, err := env.eval(args[0])
@@ -877,6 +899,9 @@ func (env *SpecEnv) call(x *SExpr) (sval, error) {
 			}
 			sub := *env
 			sub.cur = st
+			if lk, ok := env.f.siteLookups[args[0].Name]; ok {
+				sub.lookup = lk // source names denote their values at the site
+			}
 			return sub.eval(args[1])
 		}
 	case "sitearg":
